@@ -2,4 +2,11 @@ package main
 
 import "qedverif/cq"
 
-func dispatch13(cmd string, out *cq.Out, seed uint64, tier, arg string) bool { return false }
+func dispatch13(cmd string, out *cq.Out, seed uint64, tier, arg string) bool {
+	switch cmd {
+	case "redirect":
+		redirectCmd(out, seed, tier)
+		return true
+	}
+	return dispatch14(cmd, out, seed, tier, arg)
+}
